@@ -142,6 +142,8 @@ func (d vDef) query() string {
 		return fmt.Sprintf(`cdata:"MARK%d;"`, d.N)
 	case "C":
 		return `cdata:"CONV:"`
+	case "B": // every capture adds a marker of 6 bytes ("MARKk;") to the client side of a conversation
+		return fmt.Sprintf("cbytes:%d:", 6*d.N-3)
 	case "L":
 		return fmt.Sprintf(`ltime:"%s:"`, vT0.Add(time.Duration(d.N)*10*time.Second-5*time.Second).Format("2006-01-02 150405"))
 	case "I", "M":
